@@ -704,7 +704,7 @@ def run(ctx):
         "outside C12); ds:KeyValue is exercised WBXML->XML and WBXML->tree->WBXML",
     ]
     bad = common.forbidden_scan()
-    cres = common.coq_property(PID)
+    cres = common.coq_properties([PID, "X_typed"])
     common.proof_coverage(ctx, cres, extra_tb=["python 3 stdlib (int/str formatting, base64, datetime, re) as oracle"])
     proof_broken = (not cres["ok"]) or bool(bad)
 
